@@ -22,9 +22,13 @@ def judge(ctx):
     if sum(want.values()) > ctx.lim("max_seqs"):
         raise D.Skip("too-large:sequences")
     try:
-        leaves = ctx.lib_call("RandomGen", lambda: drawtree.explore(blk, ctx.lim("max_leaves")))
+        leaves = drawtree.explore(blk, ctx.lim("max_leaves"))
     except drawtree.TooLarge:
         raise D.Skip("too-large:draw-tree")
+    except env.CaseTimeout:
+        raise
+    except Exception as e:
+        raise D.Skip("lib-exception:RandomGen:%s" % env.exc_bucket(e))       # C08's business
     total = sum(p for p, _ in leaves)
     if total != 1:
         raise RuntimeError("draw tree probabilities sum to %s (harness error)" % total)
@@ -60,14 +64,15 @@ def judge(ctx):
                  % (per[lo], dict(lo), per[hi], dict(hi), len(vals), len(per)))
 
 
-CFG = G.cfg(max_levels=3, max_factors=3)
+CFG = G.cfg(max_levels=3, max_factors=3, max_derived=1, p_weight=0.15, max_constraints=2,
+            constraints=("exclude", "min", "pin", "atmost", "atleast", "exactly_k", "exactly_row"), kind_weight={"exclude": 3, "min": 3, "pin": 1})
 P = D.DesignProperty(
     "C05", judge,
     rule=("case = generated design spec in the reference domain whose complete draw tree has at most max_leaves leaves; ALL sequences of "
           "randrange outcomes of one candidate are enumerated with exact probabilities; non-trivial = at least 2 valid sequences and "
           "(rejection occurs or a derived factor / constraint / weight is present); distinct = distinct spec JSON"),
     cfg_quick=CFG, n_quick=250, n_thorough=3000, case_limit=(30, 240),
-    limits={"max_T": {"quick": 6, "thorough": 8}, "max_seqs": {"quick": 400, "thorough": 4000}, "max_leaves": {"quick": 4000, "thorough": 40000}},
+    limits={"max_T": {"quick": 7, "thorough": 9}, "max_seqs": {"quick": 600, "thorough": 4000}, "max_leaves": {"quick": 5000, "thorough": 40000}},
     assumptions=["random.randrange itself is uniform (the tree weights every outcome of randrange(n) with 1/n)",
                  "vp/ref.py implements the documented semantics"])
 P.export(globals())
